@@ -136,8 +136,10 @@ impl Read for ScriptedReader {
                 lim.min(remaining)
             }
         };
-        buf[..m].copy_from_slice(&self.data[self.pos..self.pos + m]);
-        self.pos += m;
+        if m > 0 {
+            buf[..m].copy_from_slice(&self.data[self.pos..self.pos + m]);
+            self.pos += m;
+        }
         Ok(m)
     }
 }
